@@ -344,6 +344,21 @@ theorem c14_refines_persistent_map (ops : List Op) : SpecRuns (fun _ => none) (t
     exact SpecRuns.cons _ _ _ _ (c14_step_refines w op hI) (ih _ (c14_inv_step w op hI))
 
 
+/-- The specification really is a map: a successful add or a commit makes the identifier hold exactly that content, a
+    successful discard empties it, every other identifier and every other kind of call leaves the map alone, and
+    retrievals report precisely the map's value. -/
+theorem c14_spec_is_a_map (m m' : M) (e : Ev) (h : SpecRel m e m') :
+    (∀ i v, e = .add i v true → m i = none ∧ m' = upd m i (some v)) ∧
+    (∀ i v, e = .add i v false → m i ≠ none ∧ m' = m) ∧
+    (∀ i v, e = .commit i v → m' = upd m i (some v)) ∧
+    (∀ i res, e = .read i res → res = m i ∧ m' = m) ∧
+    (∀ i res, e = .refresh i res → res = m i ∧ m' = m) ∧
+    (∀ i, e = .discard i true → m i ≠ none ∧ m' = upd m i none) ∧
+    (∀ i, e = .discard i false → m i = none ∧ m' = m) ∧
+    (∀ i b, e = .contains i b → b = (m i).isSome ∧ m' = m) ∧
+    e ≠ .failed := by
+  cases h <;> simp_all
+
 /-! ### Identity of live replicas -/
 
 private theorem pinned_modObj {w : W} {k0 : Nat} {i0 : Id} {r0 r : Ref} {o o' : Obj} (hp : Pinned w k0 i0 r0)
